@@ -20,7 +20,8 @@
      buffer_update               I_Cmp -> I_Export -> I_Load -> I_SetReady
      turn_iter                   I_Turn: haslive, do turn = (turn+1) % size while INV
      run_buffer                  do { wait_update; buffer_update } while (turn_iter())
-     run_multicry                thread creation, run_buffer on the calling thread, joins in index order (I_Join k) *)
+     run_multicry                thread creation, run_buffer on the calling thread, joins in index order (I_Join k)
+     (cv.wait may also return without a notification: PipeConc.spurious, schedule ids T+1+j) *)
 From Coq Require Import List String.
 From Wencry.Gen Require Import Sync.
 Import ListNotations.
